@@ -121,7 +121,10 @@ def step (st : DSt) (toks : List String) : DSt × String :=
     ({ st with stages := st.stages ++ [mkStage st.made cp pr eh (boolOf req) (ratOf amp)],
                names := st.names ++ [name], made := st.made + 1, nests := st.nests ++ [pr == "nest"] }, "ok")
   | ["insert", idx, cp, pr, eh, req, amp, name] =>
-    let i := min (natD idx) st.stages.length
+    -- list.insert: a negative position counts from the end (and stops at the front), one past the end appends
+    let n : Int := st.stages.length
+    let j : Int := intD idx
+    let i := (if j < 0 then max 0 (n + j) else min j n).toNat
     ({ st with stages := st.stages.take i ++ [mkStage st.made cp pr eh (boolOf req) (ratOf amp)] ++ st.stages.drop i,
                names := st.names.take i ++ [name] ++ st.names.drop i, made := st.made + 1,
                nests := st.nests.take i ++ [pr == "nest"] ++ st.nests.drop i }, "ok")
@@ -177,7 +180,7 @@ def step (st : DSt) (toks : List String) : DSt × String :=
     let g := mkStage st.made cp (if kind = "ok" || kind = "sig" then "ok" else "raise") "none" true (ratOf amp)
     ({ st with stages := st.stages ++ [agentStage g.checkpoint g.processor (ratOf amp)],
                names := st.names ++ [name], made := st.made + 1, nests := st.nests ++ [false] }, "ok")
-  | ["stats"] => (st, s!"{st.stages.length} {st.runs} {st.okRuns} {st.badRuns}")
+  | ["stats"] => (st, s!"{st.stages.length} {st.runs} {st.okRuns} {st.badRuns} {showList st.names}")
   | _ => (st, "bad-op")
 
 def main : IO Unit := runDriver ({} : DSt) step
